@@ -408,6 +408,11 @@ fn main() {
             exec(c, e, &mut rng);
         });
     }
+    // and concurrently: the same sample on several threads at once (shared state inside the library)
+    run_mix_concurrent(&mut ctx, seed, cli.threads, |c, e| {
+        let mut rng = Rng::new(e.digest());
+        exec(c, e, &mut rng);
+    });
     let mut required: Vec<String> = Vec::new();
     for k in ["Cube", "Ecube"] {
         required.push(format!("{}|terms=1|small", k));
